@@ -65,9 +65,18 @@ func vpRecord(tag string, nameLen, seqLen, sparse int) *Fasta {
 func VP_C01_RoundTrip() {
 	nrec := vpCase("records")
 	var recs []*Fasta
+	var given []vpRec
 	var w vpBuf
 	for r := 0; r < nrec; r++ {
 		f := vpRecord("r"+vpDigit(r)+".", vpCase("nameLen"+vpDigit(r)), vpCase("seqLen"+vpDigit(r)), vpCase("sparse"))
+		if vpCaseOr("shared", 0) == 1 {
+			// name and sequence cut from one buffer, as a caller that slices
+			// records out of a larger buffer has them
+			c := vpCarve(f.Name, f.Sequence)
+			f.Name, f.Sequence = c[0], c[1]
+		}
+		// what the caller handed over, before any writer touched it
+		given = append(given, vpRec{name: append([]byte(nil), f.Name...), seq: append([]byte(nil), f.Sequence...)})
 		recs = append(recs, f)
 		before := len(w.b)
 		vpAssert(f.Write(&w) == nil, "Write succeeds")
@@ -101,7 +110,8 @@ func VP_C01_RoundTrip() {
 	for _, f := range recs {
 		want = append(want, vpRec{name: f.Name, seq: f.Sequence})
 	}
-	vpAssert(vpSameRecs(got, want), "Reader yields exactly the written records in order")
+	vpAssert(vpSameRecs(given, want), "writing does not alter the records")
+	vpAssert(vpSameRecs(got, given), "Reader yields exactly the written records in order")
 	vpObserveInt("bytes", len(w.b))
 	vpReach("end")
 }
